@@ -14,7 +14,7 @@ RULE = ("seeded gen_coords runs with dense, tiny, cubic, non-cubic and density-d
 ASSUMPTIONS = wa.ASSUMPTIONS + ["where twice the step length reaches the smallest box edge the literal minimum-image reading "
                                 "is undefined; there the oracle demands that some periodic image of the displacement has the step length"]
 REAL_VS_STUB = wa.REAL_VS_STUB
-PROBES = wa.PROBES + ["earlier_call_same_topology_paths", "size_ratio_above_4", "bending_constants", "ring_soup", "placed_interacting_across_boundary", "step_longer_than_half_box", "user_grid"]
+PROBES = wa.PROBES + ["large_system_second_tree", "earlier_call_same_topology_paths", "size_ratio_above_4", "bending_constants", "ring_soup", "placed_interacting_across_boundary", "step_longer_than_half_box", "user_grid"]
 PROFILE = {"box_modes": ["dense", "dense", "tiny", "cubic", "noncubic", "density"], "p_gs": 0.5, "p_sf": 0.5, "p_mf": 0.5,
            "faults": ["step", "start", "overlap"], "n_entries": (1, 4), "max_molecules": 12,
            "shapes": ["single", "linear", "linear", "star", "comb", "tree", "ring"]}
@@ -27,6 +27,8 @@ def n_runs(tier):
 def gen_job(verif_seed, tier, index):
     job, st = jobgen.base_job(PROP, verif_seed, tier, index, PROFILE)
     g = st.gen
+    if g.random() < 0.02 and jobgen.make_large_system(job, g):
+        return job
     if g.random() < 0.1:
         # one short molecule in a box barely larger than a step: steps longer than half the box
         from gen import topgen
@@ -79,6 +81,8 @@ def gen_job(verif_seed, tier, index):
 def _tag(job, res):
     if job.get("grid_points") is not None:
         res["probes"]["user_grid"] = 1
+    if job.get("large_system"):
+        res["probes"]["large_system_second_tree"] = 1
     if job.get("ring_soup"):
         res["probes"]["ring_soup"] = 1
     if job.get("bld_bending"):
